@@ -20,6 +20,7 @@ import (
 	"github.com/IrineSistiana/mosproxy/internal/dnsmsg"
 	"github.com/IrineSistiana/mosproxy/internal/zzverif/choice"
 	"github.com/IrineSistiana/mosproxy/internal/zzverif/env"
+	"github.com/IrineSistiana/mosproxy/internal/zzverif/pause"
 	"github.com/IrineSistiana/mosproxy/internal/zzverif/refdns"
 	"github.com/IrineSistiana/mosproxy/internal/zzverif/report"
 	"github.com/rs/zerolog"
@@ -171,6 +172,18 @@ func pick(c *choice.Ctx, menu []event) *event {
 	if len(menu) == 0 {
 		return nil
 	}
+	if pz.ch != nil {
+		// a goroutine stands still at a pause point: letting it go on is the default, every other event happens "during" the preemption
+		menu = append([]event{{name: "resume(" + pz.at + ")", do: func() { resume() }}}, menu...)
+		normal, faults = nil, nil
+		for i := range menu {
+			if menu[i].fault {
+				faults = append(faults, i)
+			} else {
+				normal = append(normal, i)
+			}
+		}
+	}
 	defer report.FlushCurrent()
 	// the label carries the whole menu so that a replay that reaches a different state is detected
 	var sb strings.Builder
@@ -277,12 +290,17 @@ func runExplore(t *testing.T, rep *report.R, bound int, scenario func(c *choice.
 	rep.Count("replay_divergences_rerun", st.Divergences)
 	rep.Count("divergent_executions_accepted", st.DivergentAccepted)
 	rep.Count("max_depth", int64(st.MaxDepth))
+	if pauseMode {
+		rep.Count("executions_with_a_goroutine_held_at_a_pause_point", pz.n)
+		rep.Note("E4: every statement boundary of the instrumented implementation files that an explored execution reaches (first PAUSEHITS hits per point) was a choice point 'this goroutine stands still here until resumed'; at most one such preemption per execution, never inside a critical section, never across virtual time")
+	}
 	return st
 }
 
 // abandon tears an execution down when it is given up half-way (its subtree belongs to another worker):
 // nothing may stay blocked in the worker's bubble.
 func abandon(tr interface{ Close() error }, d *env.Dialer, calls *[]*call) {
+	pauseEnd()
 	for _, cl := range *calls {
 		if cl != nil && cl.started && cl.cancel != nil {
 			cl.cancel()
@@ -297,6 +315,10 @@ func abandon(tr interface{ Close() error }, d *env.Dialer, calls *[]*call) {
 	}
 	go tr.Close()
 	wait()
+	for d.Pending() > 0 { // a dial that began only now (a goroutine that stood at a pause point went on)
+		d.Release(false)
+		wait()
+	}
 	for i := 0; i < d.NumConns(); i++ {
 		d.ImplEnd(i).Abort()
 		d.Conn(i).Abort()
@@ -318,9 +340,14 @@ func wait() {
 }
 
 func hsleep(d time.Duration) {
+	if resume() {
+		wait() // virtual time never passes while a goroutine is held at a pause point: a preemption is short
+	}
+	pz.sleepUntil = time.Now().Add(d)
 	hmu.Unlock()
 	time.Sleep(d)
 	hmu.Lock()
+	pz.sleepUntil = time.Time{}
 }
 
 // publish runs f (which stores results read by the harness) under hmu.
@@ -331,3 +358,87 @@ func publish(f func()) {
 }
 
 func b64(s string) ([]byte, error) { return base64.RawURLEncoding.DecodeString(s) }
+
+// ---- E4: pause points (DESIGN 9.13). The implementation files of this build carry a pause point before every
+// statement (tools_instr). With VERIF_P_PAUSE=1 every hit - on a goroutine that holds no instrumented lock, is not the
+// harness and was not called back from third-party code - is a binary choice point: go on (default) or stand still
+// until the harness resumes the goroutine. At most one pause per execution (preemption bound 1), at most PAUSEHITS
+// hits per pause point and execution are choice points.
+var pz struct {
+	c    *choice.Ctx
+	ch   chan struct{}
+	at   string
+	used bool
+	hits map[string]int
+	cap  int
+	min  int
+	n    int64 // pauses taken (evidence counter)
+
+	sleepUntil time.Time // the harness lets virtual time pass until then: no pause before that instant
+}
+
+var pauseMode = report.ParamInt("PAUSE", 0) > 0
+
+func pauseBegin(c *choice.Ctx) {
+	if !pauseMode {
+		return
+	}
+	pz.c, pz.ch, pz.at, pz.used = c, nil, "", false
+	pz.hits = map[string]int{}
+	pz.cap = report.ParamInt("PAUSEHITS", 1)
+	pz.min = report.ParamInt("SHARDDEPTH", 3) + 1
+	pause.Hook = pauseHook
+	pause.Enable(true)
+}
+
+// pauseHook runs on an implementation goroutine.
+func pauseHook(id string) {
+	var ch chan struct{}
+	publish(func() {
+		if pz.c == nil || pz.used || len(pz.c.Choices()) < pz.min {
+			return
+		}
+		if !pz.sleepUntil.IsZero() && time.Now().Before(pz.sleepUntil) {
+			return // time is passing: a goroutine held here would stand still for seconds, which is not a preemption
+		}
+		pz.hits[id]++
+		if pz.hits[id] > pz.cap {
+			return
+		}
+		if pz.c.Choose(2, "pause@"+id) == 1 {
+			pz.used = true
+			pause.Enable(false)
+			ch = make(chan struct{})
+			pz.ch, pz.at = ch, id
+			pz.n++
+		}
+	})
+	if ch != nil {
+		<-ch
+	}
+}
+
+func paused() bool { return pz.ch != nil }
+
+// pauseNote names the pause point of this execution for violation messages.
+func pauseNote() string {
+	if pz.used {
+		return " [one goroutine stood still before " + pz.at + " until resumed]"
+	}
+	return ""
+}
+
+func resume() bool {
+	if pz.ch != nil {
+		close(pz.ch)
+		pz.ch = nil
+		return true
+	}
+	return false
+}
+
+func pauseEnd() {
+	pause.Enable(false)
+	pz.c = nil
+	resume()
+}
